@@ -722,7 +722,7 @@ class Interp:
                 return self.eval(node.body, frame)
             is_async = isinstance(node, ast.AsyncFunctionDef)
             is_gen = self._is_generator(node)
-            if is_async and not self.cfg.get("_awaiting") :
+            if is_async and not is_gen and not self.cfg.get("_awaiting"):
                 # calling an async function creates a coroutine; it runs when awaited
                 self.depth -= 1
                 try:
